@@ -181,7 +181,8 @@ func (P *Prog) valuePredicates() []*predClass {
 				pc.class = "uint"
 			case kindsEqual(kt, map[string]string{"string": ""}):
 				pc.class = "tstr"
-			case kindsEqual(kt, map[string]string{"[]byte": ""}):
+			case kindsEqual(kt, map[string]string{"[]byte": "nonnil"}):
+				// a nil []byte is encoded as CBOR null, not as a bstr (D5)
 				pc.class = "bstr"
 			}
 		}
